@@ -619,6 +619,93 @@ def legacy_no_witness(ctx):
     ctx.require(any(isinstance(x, ast.AugAssign) and norm(x.target) == 'r_witness' and norm(x.value) in ("b'\\x00'",) for x in ifs[0].orelse), q, 'inputs without witness do not get the empty stack 00', ifs[0])
 
 
+@PROP.obligation('C06.witness-default', canaries=[
+    mut.replace_stmt('transactions', 'Input.__init__', 'if not self.witnesses:', "self.witness_type = 'legacy'", 'input with a witness stack and a script type defaults to legacy', nth=0),
+    mut.replace_expr('transactions', 'Input.__init__', "['p2sh_p2wpkh', 'p2sh_p2wsh']", "['p2sh_p2wpkh']", 'p2sh_p2wsh inputs default to legacy'),
+])
+def witness_default(ctx):
+    """Input.__init__ without witness_type (the form add_input receives from providers and dictionaries): the statements that read or write
+    witness_type / witnesses are evaluated for every script type with and without a witness stack. An input given a non-empty stack ends
+    as segwit (p2sh-segwit for the nested script types), one without as legacy - Transaction.raw only serialises the stack of
+    non-legacy inputs (C06.legacy-no-witness), so a legacy default drops the witness data that was handed over."""
+    q = 'transactions:Input.__init__'
+    fn = ctx.repo.func(q)
+
+    def mentions(s):
+        for n in ast.walk(s):
+            if isinstance(n, ast.Name) and n.id in ('witness_type', 'witnesses'):
+                return True
+            if isinstance(n, ast.Attribute) and n.attr in ('witness_type', 'witnesses'):
+                return True
+        return False
+    stmts = [x for x in fn.body if mentions(x) and not (isinstance(x, ast.Expr) and isinstance(x.value, ast.Constant))]
+    ctx.floor(len(stmts), 4, 'statements of Input.__init__ touching witness_type / witnesses')
+    I = ('var', 'self')
+    n = 0
+    for stype in ('sig_pubkey', 'p2sh_multisig', 'signature', None, 'p2sh_p2wpkh', 'p2sh_p2wsh'):
+        for wit, label in (([S(('var', 'w0'), 'bytes'), S(('var', 'w1'), 'bytes')], 'a witness stack'), (None, 'no witnesses'), ([], 'an empty witness list')):
+            it = Interp(ctx.repo, 'transactions', hooks=LAYOUT_HOOKS, self_cls='transactions:Input')
+            st = State(env={'self': S(I), 'witness_type': None, 'witnesses': wit, 'encoding': None, 'script_type': stype, 'signatures': None, 'keys': None, 'strict': True,
+                            'sigs_required': None, 'address': ''})
+            for k, v in (('script_type', stype), ('unlocking_script', b''), ('locking_script', None), ('signatures', []), ('keys', []), ('address_obj', None)):
+                st.heap[('attr', I, k)] = v
+            it.frames.append([])
+            try:
+                for x in stmts:
+                    st = it.exec_stmt(x, st)
+                    if st is None:
+                        break
+            except AnalysisError as e:
+                ctx.undecided('Input.__init__(script_type=%r, %s): witness-type statements not evaluable: %s' % (stype, label, str(e)[:100]))
+            if st is None:
+                ctx.undecided('Input.__init__(script_type=%r, %s): constructor ends inside the witness-type statements' % (stype, label))
+            got = term(st.heap.get(('attr', I, 'witness_type')))
+            exp = 'p2sh-segwit' if stype in ('p2sh_p2wpkh', 'p2sh_p2wsh') else ('segwit' if wit else 'legacy')
+            n += 1
+            ctx.saw('script_type=%s, %s -> witness_type %s' % (stype, label, show(got)[:60]))
+            ctx.require(got == exp, q, 'an input created with script_type=%r and %s (no witness_type) ends with witness_type %s, expected %r' % (stype, label, show(got)[:80], exp), fn,
+                        'Transaction.raw serialises the witness stack only for non-legacy inputs: the witness data handed to add_input is dropped from the transaction' if wit else
+                        'an input without witness data is serialised in the segwit format')
+    ctx.floor(n, 18, 'script type x witness combinations')
+
+
+@PROP.obligation('C06.bip34-guard', canaries=[
+    mut.replace_expr('blocks', 'Block.__init__', 'height and calc_height != height and (height > 227835)', 'height and calc_height != height', 'height mismatch raised for blocks whose height push is shorter than 3 bytes'),
+])
+def bip34_guard(ctx):
+    """Block.__init__ reads the BIP34 height as the fixed three bytes coinbase_script[1:4]; that is the height only when the push is 3 bytes
+    long (heights 32768 and up; below, OP_n / 1- / 2-byte pushes are followed by other script bytes). The consistency check that raises
+    on calc_height != height must therefore be switched off for every caller-given height below that, whatever was decoded - otherwise a
+    well-formed low-height version-2 block handed over with its correct height is refused."""
+    q = 'blocks:Block.__init__'
+    fn = ctx.repo.func(q)
+    calc = [n for n in ast.walk(fn) if isinstance(n, ast.Assign) and norm(n.targets[0]) == 'calc_height']
+    ifs = [n for n in ast.walk(fn) if isinstance(n, ast.If) and any(isinstance(x, ast.Raise) for x in n.body) and 'calc_height' in norm(n.test)]
+    if not calc:
+        ctx.saw('Block.__init__ no longer derives calc_height: nothing to check')
+        return
+    fixed = all('[1:4]' in norm(c.value) for c in calc)
+    ctx.saw('calc_height = %s' % '; '.join(norm(c.value)[:110] for c in calc))
+    if not fixed:
+        ctx.saw('the height is no longer decoded from a fixed 3-byte slice: the premise of the rule is gone')
+        return
+    ctx.saw('%d raising consistency checks on calc_height' % len(ifs))
+    for n in ifs:
+        for h in (1, 16, 17, 127, 128, 255, 256, 32767):
+            it = Interp(ctx.repo, 'blocks', self_cls='blocks:Block')
+            st = State(env={'self': S(('var', 'self')), 'height': h, 'calc_height': S(('var', 'calc_height'), 'int')})
+            try:
+                t = it.truth(it.eval(n.test, st), st)
+                v = t if isinstance(t, bool) else intv.truth_eval(t, {})
+            except (intv.Unknown, KeyError, TypeError, AnalysisError):
+                v = None
+            if v is not False:
+                ctx.violate(q, 'for the caller-given height %d the check `%s` can raise although the 3-byte decode [1:4] is not the height of such a block (push of %s)' % (
+                    h, norm(n.test), 'OP_n' if h <= 16 else '%d byte(s)' % (1 if h < 128 else 2)), n,
+                    'Block.parse(..., height=h, parse_transactions=True) of a well-formed version-2 block below height 32768 (regtest, testnet, altcoin chains) raises ValueError')
+                break
+
+
 @PROP.obligation('C06.version-writers', canaries=[
     mut.replace_expr('transactions', 'Transaction.sign_and_update', "self.version_int.to_bytes(4, 'big')", "self.version_int.to_bytes(4, 'little')", 'version bytes rebuilt little endian'),
     mut.replace_expr('transactions', 'Transaction.add_input', "b'\\x00\\x00\\x00\\x02'", "b'\\x02\\x00\\x00\\x00'", 'version bytes of the BIP68 upgrade in wire order'),
